@@ -17,6 +17,7 @@ ENGINES = {
     "C05": ("eng_host", "run"),
     "C06": ("eng_c06", "run"),
     "C07": ("eng_nv", "run"),
+    "C08": ("eng_c08", "run"),
     "C09": ("eng_c09", "run"),
     "C10": ("eng_c10", "run"),
     "C11": ("eng_c11", "run"),
